@@ -611,7 +611,7 @@ pub fn run(ctx: &mut Ctx) {
     crate::app::pin_clock();
     let tier = ctx.tier;
     values(ctx, tier, None);
-    let max_pairs = if ctx.quick() { 3 } else { 4 };
+    let max_pairs = if ctx.quick() { 3 } else { 5 };
     texts(ctx, max_pairs);
     typed_texts(ctx);
     ctx.sample(|| json!({"part": "text", "text": "b=%E3%81%82&z=+&%61=a%26b", "reference_pairs": dbg(&refenc::decode_pairs(b"b=%E3%81%82&z=+&%61=a%26b"))}));
